@@ -118,6 +118,45 @@ def nested(fam, doc):
         return None
 
 
+def helper_queries(rng, fam, doc, pos, node, cap):
+    """lift_target / can_split / delete_range asked at positions INSIDE an isolating node: the implementation's
+    answers (for delete_range: the step it records) are compared with Model.StructOps / Model.RangeOps, the
+    functions the C18 helper theorems are about"""
+    import c11
+    import c12
+    info = S.info_for(fam)
+    start, end = pos + 1, pos + 1 + node.content.size
+    ps = [p for p in S.boundary_positions(doc) if start <= p <= end]
+    out = []
+
+    def case(qterm, ans, kind, qdesc):
+        term, short = ans
+        return Case(coq=f"CStruct @S@ {info.node(doc)} {qterm} {term}",
+                    desc={"case": "struct", "family": fam, "doc": doc.to_json(), "query": qdesc, "answer": short},
+                    schema=info.schema_term(), kind=f"struct:{kind}/{short.split(':')[0] if short.startswith('error') else 'ok'}",
+                    nontrivial=True)
+    for _ in range(cap):
+        a, c = sorted((rng.choice(ps), rng.choice(ps)))
+        depth = rng.randint(1, 3)
+        out.append(case(f"(QCanSplit {nat(a)} {nat(depth)})",
+                        c12._answer(info, lambda: structure.can_split(doc, a, depth), "bool"), "can_split",
+                        {"q": "can_split", "pos": a, "depth": depth}))
+        ra, rc = doc.resolve(a), doc.resolve(c)
+        cands = [ra.block_range(rc)]
+        if ra.depth >= 2:
+            want = ra.node(rng.randint(1, ra.depth - 1))
+            cands.append(ra.block_range(rc, lambda nd, want=want: nd is want))
+        for rg in cands:
+            if rg is None:
+                continue
+            f_, t_, dp = rg.from_.pos, rg.to.pos, rg.depth
+            out.append(case(f"(QLiftTarget {nat(f_)} {nat(t_)} {nat(dp)})",
+                            c12._answer(info, lambda: structure.lift_target(rg), "optnat"), "lift_target",
+                            {"q": "lift_target", "from": f_, "to": t_, "depth": dp}))
+        out.append(c11.delete_range_case(fam, doc, a, c))
+    return out
+
+
 def generate(rng: random.Random, tier: str):
     quick = tier == "quick"
     for fam in FAMS:
@@ -130,6 +169,8 @@ def generate(rng: random.Random, tier: str):
             for _ in range(20 if quick else 60):
                 pos, node = rng.choice(l)
                 yield iso_case(rng, fam, g, doc, docs, pos, node)
+            pos, node = rng.choice(l)
+            yield from helper_queries(rng, fam, doc, pos, node, 2 if quick else 4)
 
 
 def rebuild(desc):
